@@ -124,12 +124,13 @@ def sym_sequence(eng, it, st):
     """View a symbolic iterable as (length term, element accessor, kind tag)."""
     from .models import VRange, VIter
     if isinstance(it, V) and isinstance(it.kind, Seq):
-        return z3.Length(it.term), (lambda i: V(it.kind.elem, it.term[i])), "seq"
+        return it.kind.len(it.term), (lambda i: V(it.kind.elem, it.kind.at(it.term, i))), "seq"
     if isinstance(it, V) and it.kind == STR:
         return z3.Length(it.term), (lambda i: V(STR, z3.SubString(it.term, i, 1))), "seq"
     if isinstance(it, V) and isinstance(it.kind, Map):
         keys = it.kind.keys(it.term)
-        return z3.Length(keys), (lambda i: V(it.kind.key, keys[i])), "seq"
+        ks = Seq(it.kind.key)
+        return ks.len(keys), (lambda i: V(it.kind.key, ks.at(keys, i))), "seq"
     if isinstance(it, VRange):
         lo, hi = it.lo.term, it.hi.term
         n = z3.If(hi - lo < 0, 0, hi - lo)
@@ -141,9 +142,10 @@ def sym_sequence(eng, it, st):
             m = it.parts[0]
             keys = m.kind.keys(m.term)
             va = m.kind.valarr(m.term)
+            ks = Seq(m.kind.key)
             if it.how == "mapvalues":
-                return z3.Length(keys), (lambda i: V(m.kind.val, z3.Select(va, keys[i]))), "seq"
-            return z3.Length(keys), (lambda i: VTuple([V(m.kind.key, keys[i]), V(m.kind.val, z3.Select(va, keys[i]))])), "seq"
+                return ks.len(keys), (lambda i: V(m.kind.val, z3.Select(va, ks.at(keys, i)))), "seq"
+            return ks.len(keys), (lambda i: VTuple([V(m.kind.key, ks.at(keys, i)), V(m.kind.val, z3.Select(va, ks.at(keys, i)))])), "seq"
         if it.how == "enumerate":
             n, acc, _ = sym_sequence(eng, eng.to_smt(it.parts[0], st), st)
             return n, (lambda i: VTuple([V(INT, i), acc(i)])), "seq"
@@ -597,18 +599,26 @@ def _symbolic_comp(models, eng, e, st, frame, how):
     # list: order-preserving map when there is a single unfiltered sequence generator
     single = len(gens) == 1 and not gens[0].ifs and bound[0].sort() == z3.IntSort() and not isinstance(
         eng.to_smt(_eval_pure(eng, gens[0].iter, st, dict(frame)), st).kind if isinstance(eng.to_smt(_eval_pure(eng, gens[0].iter, st, dict(frame)), st), V) else None, SetK)
-    r = fresh(Seq(elt.kind), "comp")
+    K = Seq(elt.kind)
+    r = fresh(K, "comp")
     if single:
         it = eng.to_smt(_eval_pure(eng, gens[0].iter, st, dict(frame)), st)
         n = sym_sequence(eng, it, st)[0]
-        st.assume(z3.Length(r.term) == n)
+        st.assume(K.len(r.term) == n)
         i = bound[0]
-        st.assume(z3.ForAll([i], z3.Implies(z3.And(i >= 0, i < n), r.term[i] == elt.term), patterns=[r.term[i]]))
+        st.assume(z3.ForAll([i], z3.Implies(z3.And(i >= 0, i < n), K.at(r.term, i) == elt.term), patterns=[K.at(r.term, i)]))
         return r
     # filtered / nested: characterise membership only (order and multiplicity abstracted)
     y = z3.Const(fresh_name("y"), es)
-    st.assume(z3.ForAll([y], z3.Contains(r.term, z3.Unit(y)) == z3.Exists(bound, z3.And(guard, elt.term == y))))
-    st.assume(z3.ForAll(bound, z3.Implies(guard, z3.Contains(r.term, z3.Unit(elt.term)))))
+    src = z3.Function(fresh_name("compsrc"), z3.IntSort(), *[b.sort() for b in bound]) if False else None
+    q = z3.Const(fresh_name("q"), z3.IntSort())
+    n = K.len(r.term)
+    # every element stems from some binding; every binding that passes the filters is present
+    st.assume(z3.ForAll([q], z3.Implies(z3.And(0 <= q, q < n),
+                                        z3.Exists(bound, z3.And(guard, elt.term == K.at(r.term, q)))), patterns=[K.at(r.term, q)]))
+    pos = z3.Function(fresh_name("comppos"), *[b.sort() for b in bound], z3.IntSort())
+    st.assume(z3.ForAll(bound, z3.Implies(guard, z3.And(0 <= pos(*bound), pos(*bound) < n, K.at(r.term, pos(*bound)) == elt.term))))
+    st.assume(n >= 0)
     return r
 
 
